@@ -97,12 +97,38 @@ Proof.
   apply minimal_twos_unique_nw; auto. congruence.
 Qed.
 
-Lemma cell_eqb z y : bytes_eqb (cell_octets z) (cell_octets y) = (z =? y).
+(* INTEGER_compare == 0 compares the VALUES of two non-empty INTEGER_t *)
+Theorem octets_eqb_value a b : bytes_ok a -> bytes_ok b -> a <> [] -> b <> [] ->
+  (octets_eqb a b = true <-> twos_value a = twos_value b).
 Proof.
-  destruct (z =? y) eqn:E.
-  - apply bytes_eqb_eq. f_equal. lia.
-  - destruct (bytes_eqb (cell_octets z) (cell_octets y)) eqn:B; [|reflexivity].
-    apply bytes_eqb_eq in B. apply cell_octets_inj in B. lia.
+  intros Ha Hb Na Nb.
+  destruct (strip_spec a Ha Na) as (Va & Ma & Oa & _ & _).
+  destruct (strip_spec b Hb Nb) as (Vb & Mb & Ob & _ & _).
+  assert (E : octets_eqb a b = bytes_eqb (strip a) (strip b)).
+  { destruct a; [congruence|]. destruct b; [congruence|]. reflexivity. }
+  rewrite E. split; intros H.
+  - apply bytes_eqb_eq in H. rewrite <- Va, <- Vb, H. reflexivity.
+  - apply bytes_eqb_eq. apply minimal_twos_unique_nw; auto. congruence.
+Qed.
+
+Lemma octets_eqb_empty b : octets_eqb [] b = true <-> b = [].
+Proof. destruct b; cbn; split; intros H; congruence. Qed.
+
+Lemma cell_octets_eqb z bs : bytes_ok bs -> bs <> [] ->
+  octets_eqb (cell_octets z) bs = (z =? twos_value bs).
+Proof.
+  intros Hb Nb. destruct (cell_octets_denotes z) as (Hz & _ & Ho & Hn).
+  pose proof (octets_eqb_value (cell_octets z) bs Ho Hb Hn Nb) as H. rewrite Hz in H.
+  destruct (z =? twos_value bs) eqn:E.
+  - apply H. lia.
+  - destruct (octets_eqb (cell_octets z) bs) eqn:B; [|reflexivity].
+    assert (z = twos_value bs) by (apply H; reflexivity). lia.
+Qed.
+
+Lemma cells_eqb z y : octets_eqb (cell_octets z) (cell_octets y) = (z =? y).
+Proof.
+  destruct (cell_octets_denotes y) as (Hy & _ & Ho & Hn).
+  rewrite cell_octets_eqb by assumption. rewrite Hy. reflexivity.
 Qed.
 
 (* ---------------- the compiler's emitter ---------------- *)
@@ -179,11 +205,32 @@ Proof.
 Qed.
 
 Lemma select_from_encoded tbl z : int_cells tbl -> forall k,
-  select_from (VOct (cell_octets z)) (encode_table tbl) k = select_from (VInt z) tbl k.
+  select_by (cell_eqb RWide) (VOct (cell_octets z)) (encode_table tbl) k = select_from (VInt z) tbl k.
 Proof.
   induction 1 as [|r tl [y Hy] _ IH]; intros k; [reflexivity|].
-  cbn [encode_table map select_from fst snd]. rewrite Hy. cbn [encode_cell id_eqb].
-  rewrite cell_eqb. destruct (z =? y); [reflexivity|]. apply IH.
+  cbn [encode_table map select_by select_from fst snd]. rewrite Hy. cbn [encode_cell id_eqb cell_eqb].
+  rewrite cells_eqb. destruct (z =? y); [reflexivity|]. apply IH.
+Qed.
+
+(* more: ANY table of non-empty octet cells that DENOTE the identifiers (minimal or not) resolves
+   like the abstract table, for any octets denoting the identifier (a non-minimal BER identifier too) *)
+Definition cells_denote (etbl tbl : table) : Prop :=
+  Forall2 (fun er r => snd er = snd r /\ exists bs z, fst er = VOct bs /\ fst r = VInt z /\
+                       bytes_ok bs /\ bs <> [] /\ twos_value bs = z) etbl tbl.
+
+Theorem select_denoting etbl tbl key : cells_denote etbl tbl -> bytes_ok key -> key <> [] ->
+  select_octets etbl key = select tbl (VInt (twos_value key)).
+Proof.
+  intros H Hk Nk. unfold select_octets, select. generalize 0%nat as k.
+  induction H as [|er r etl tl (Hs & bs & z & He & Hr & Hb & Nb & Hv) _ IH]; intros k; [reflexivity|].
+  cbn [select_by select_from]. rewrite He, Hr, Hs. cbn [cell_eqb id_eqb].
+  assert (E : octets_eqb key bs = (twos_value key =? z)).
+  { pose proof (octets_eqb_value key bs Hk Hb Nk Nb) as HH. rewrite Hv in HH.
+    destruct (twos_value key =? z) eqn:E.
+    - apply HH. lia.
+    - destruct (octets_eqb key bs) eqn:B; [|reflexivity].
+      assert (twos_value key = z) by (apply HH; reflexivity). lia. }
+  rewrite E. destruct (twos_value key =? z); [reflexivity|]. apply IH.
 Qed.
 
 (* the selector over octet cells, given the octets of the identifier, is the
@@ -191,6 +238,14 @@ Qed.
 Theorem select_encoded tbl z : int_cells tbl ->
   select_rep RWide (encode_table tbl) (VInt z) = select tbl (VInt z).
 Proof. intros H. unfold select_rep, select, key_of. cbn [encode_cell]. apply select_from_encoded. exact H. Qed.
+
+Lemma encode_table_denotes tbl : int_cells tbl -> cells_denote (encode_table tbl) tbl.
+Proof.
+  induction 1 as [|r tl [z Hz] _ IH]; [constructor|].
+  cbn [encode_table map]. constructor; [|exact IH]. cbn [fst snd]. split; [reflexivity|].
+  destruct (cell_octets_denotes z) as (Hv & _ & Ho & Hn).
+  exists (cell_octets z), z. rewrite Hz. cbn [encode_cell]. auto.
+Qed.
 
 Theorem emit_table_wide_partial s t :
   Forall (fun g => length g <> 1%nat) s -> int_cells (concat s) ->
